@@ -505,6 +505,15 @@ theorem sp_stopNext (s : Sess) : SP s (stopNext s).1 := by
   all_goals (try dsimp only)
   all_goals sp_peel
 
+theorem speel_setLastChecked {s x : Sess} (n : Int) (h : SP s x) : SP s (x.setLastChecked n) := h.trans (SP.of_eq rfl rfl)
+macro_rules | `(tactic| sp_step) => `(tactic| apply speel_setLastChecked)
+
+theorem sp_checkResetTime (s : Sess) (now : Int) : SP s (checkResetTime s now) := by
+  unfold checkResetTime
+  repeat' split
+  all_goals (try dsimp only)
+  all_goals sp_peel
+
 theorem sp_stepCore (s : Sess) (e : Ev) : SP s (stepCore s e).1 := by
   obtain ⟨hS, hD, hI, hC⟩ := sp_mutual (fuelOf s)
   unfold stepCore
@@ -548,6 +557,7 @@ theorem sp_stepCore (s : Sess) (e : Ev) : SP s (stepCore s e).1 := by
     have h1 := hC s true true
     split <;> sp_peel
   | sessionTime r sm => exact hC s r sm
+  | resetTime now => exact sp_checkResetTime s now
 
 theorem sp_step (s : Sess) (e : Ev) : SP s (step s e).1 := by
   unfold step
